@@ -315,14 +315,14 @@ func (m *tableMon) recordAction(id, action string, amt int64, err error, gc int,
 // ---- membership operations (C03, C01 ledger) -----------------------------------------------------
 
 type memberSnap struct {
-	seq    int64
-	table  string
-	sm     string
-	bank   map[string]int64
-	roster []string
-	inHand bool
-	gc     int
-	ids    map[string]bool
+	seq       int64
+	table     string
+	sm        string
+	bank      map[string]int64
+	roster    []string
+	inHand    bool
+	gc        int
+	ids       map[string]bool
 	seatTaken map[int]bool
 }
 
